@@ -62,11 +62,16 @@ type batchSpec struct {
 type modSpec struct {
 	Group string   `json:"group"`
 	ID    string   `json:"id"`
-	Field string   `json:"field"` // count labels index override role start end
+	Via   string   `json:"via,omitempty"` // getter the edited object was obtained from ("" = GetRule)
+	Field string   `json:"field"`         // count labels index override role start end
 	Int   int      `json:"int,omitempty"`
 	Bool  bool     `json:"bool,omitempty"`
 	Str   string   `json:"str,omitempty"`
 	Strs  []string `json:"strs,omitempty"`
+	// Again: after the SetRule succeeded the caller edits the same object once more (count = Int2)
+	// and sets it again (server.SetReplicationConfig rolling back after a failed Persist).
+	Again bool `json:"again,omitempty"`
+	Int2  int  `json:"int2,omitempty"`
 }
 
 // opSpec is one update of a history.
@@ -96,6 +101,8 @@ const (
 	kSetAllGroupBundles = "SetAllGroupBundles"
 	kDeleteGroupBundle  = "DeleteGroupBundle"
 	kGetModifySet       = "GetModifySet"
+	kGetEditSetGroup    = "GetEditSetGroup"  // GetRuleGroup(s) -> edit index/override -> SetRuleGroup
+	kGetEditSetBundle   = "GetEditSetBundle" // GetGroupBundle -> edit -> SetGroupBundle, or GetAllGroupBundles -> edit -> SetAllGroupBundles(override)
 )
 
 // model is the configured state: rules by (group,id) and explicit group configurations.
@@ -541,6 +548,46 @@ func (md *model) apply(op opSpec) (next *model, wf bool, ambiguous bool) {
 		}
 		modifySpec(&r, op.Mod)
 		if !set(r, "") {
+			return md, false, false
+		}
+		if op.Mod.Again {
+			if p, _, va := n.validity(); p != "" || va {
+				return md, true, true // the first of the two updates is not clearly acceptable: not used
+			}
+			r.Count = op.Mod.Int2
+			if !set(r, "") {
+				return md, true, true
+			}
+		}
+	case kGetEditSetGroup, kGetEditSetBundle:
+		// the object a getter returned, with one field changed, is set again: the configuration
+		// afterwards is the old one with that change
+		known := false
+		for _, id := range md.groupUniverse() {
+			known = known || id == op.Mod.Group
+		}
+		if !known {
+			return md, false, false
+		}
+		gs := n.group(op.Mod.Group)
+		switch op.Mod.Field {
+		case "index":
+			gs.Index = op.Mod.Int
+			n.setGroup(gs)
+		case "override":
+			gs.Override = op.Mod.Bool
+			n.setGroup(gs)
+		case "count": // first rule of the bundle
+			rs := md.rulesOfGroup(op.Mod.Group)
+			if op.Kind != kGetEditSetBundle || len(rs) == 0 {
+				return md, false, false
+			}
+			r := *rs[0]
+			r.Count = op.Mod.Int
+			if !set(r, "") {
+				return md, false, false
+			}
+		default:
 			return md, false, false
 		}
 	default:
